@@ -573,6 +573,44 @@ func genG7(r rng, n int, t *testing.T) []*Scenario {
 			out = append(out, sc)
 			continue
 		}
+		if r.chance(0.08) {
+			// a call that outlasts the stop's patience: one kind of store call of one instance is in transit for longer than
+			// Stop waits for the background goroutines (5 s), and the stop is made while such a call is in flight; the answer
+			// arrives after the stop call has returned, and whatever the goroutine does next is done by a stopped election
+			ninst = int(r.between(2, 3))
+			sc := base(r, ninst, h, ttl)
+			sc.Env = []string{"stoppoint"}
+			sc.Latency = [2]int64{ms, 3 * ms}
+			startAll(sc, r, h)
+			victim := sc.Instances[r.Intn(ninst)].ID
+			kind := r.pick2("get", "get", "create", "update")
+			if r.chance(0.6) {
+				// the victim may take the record over: it outranks the others
+				for i := range sc.Instances {
+					sc.Instances[i].Priority = 1
+					if sc.Instances[i].ID == victim {
+						sc.Instances[i].Priority, sc.Instances[i].Takeover = 5, true
+					}
+				}
+			}
+			if r.chance(0.3) {
+				sc.Actions = append(sc.Actions, Action{At: r.between(2*h, 4*h), Do: r.pick2("ext_del", "expire"), Key: "g"})
+			}
+			sc.Rules = append(sc.Rules, Rule{Inst: victim, Kind: kind, FromT: r.between(0, 3*h), Pre: r.between(5*sec+h, 8*sec), Post: ms})
+			stop := Action{On: fmt.Sprintf("issue:%d", map[string]int{"create": kCreate, "update": kUpdate, "get": kGet}[kind]), OnI: victim,
+				OnNth: int(r.between(0, 2)), I: victim, Do: "stop"}
+			if r.chance(0.4) {
+				stop.Do, stop.Delete, stop.Wait, stop.Timeout = "stop_ctx", r.chance(0.5), r.chance(0.5), r.pick(0, 0, h/2, 2*sec)
+			}
+			if r.chance(0.2) {
+				stop.Then = &Action{After: r.pick(0, 1, h/2), Do: "start"}
+			}
+			sc.Actions = append(sc.Actions, stop)
+			sc.Until = 8*h + 16*sec
+			sc.Grid = h
+			out = append(out, sc)
+			continue
+		}
 		sc := base(r, ninst, h, ttl)
 		sc.Env = []string{"stoppoint"}
 		q := h/4 - 1
